@@ -253,3 +253,68 @@ func H12_bytes() {
 	sv.Assert("no-panic-escapes-the-public-api", cls == "ok")
 	sv.Reach("called")
 }
+
+// H12_seq: a failing evaluation leaves the API usable. Two or three
+// evaluations in a row in one process - the first ones fail at run time
+// (invalid pattern, index, key, modulo) - through Eval and through one
+// Callable: each returns (a later call never blocks on something an earlier
+// failure left behind, never panics), and a later succeeding call returns its
+// value.
+func H12_seq() {
+	type step struct {
+		src  string
+		host map[string]interface{}
+		fail bool
+	}
+	bad := []step{
+		{"match(p, s)", map[string]interface{}{"p": "(", "s": "x"}, true},
+		{"match(p, s)", map[string]interface{}{"p": "[a-", "s": "x"}, true},
+		{"xs[i]", map[string]interface{}{"xs": []float64{1}, "i": 5}, true},
+		{"m[k]", map[string]interface{}{"m": map[string]float64{"k": 1}, "k": "z"}, true},
+		{"a % b", map[string]interface{}{"a": 1, "b": 0}, true},
+		{"1 +", map[string]interface{}{}, true},
+	}
+	good := []step{
+		{"match(p, s)", map[string]interface{}{"p": "a+", "s": "caat"}, false},
+		{"xs[i]", map[string]interface{}{"xs": []float64{1}, "i": 0}, false},
+		{"m[k]", map[string]interface{}{"m": map[string]float64{"k": 1}, "k": "k"}, false},
+		{"a % b", map[string]interface{}{"a": 7, "b": 2}, false},
+	}
+	first := bad[sv.Choice("first", len(bad))]
+	steps := []step{first}
+	if sv.Choice("again", 2) == 1 {
+		steps = append(steps, first) // the same failure once more
+	}
+	steps = append(steps, good[sv.Choice("then", len(good))])
+	viaCallable := sv.Choice("api", 2) == 1
+	callables := map[string]Callable{}
+	for k, st := range steps {
+		var r *val.Val
+		var err error
+		cls := sv.Outcome(func() {
+			if !viaCallable {
+				r, err = Eval(st.src, st.host)
+				return
+			}
+			c, ok := callables[st.src]
+			if !ok {
+				c, err = NewExpr().Compile(st.src, st.host)
+				if err != nil {
+					return
+				}
+				callables[st.src] = c
+			}
+			r, err = c(st.host)
+		})
+		sv.Assert("call-"+hx.Itoa(k)+"-returns-without-panic-or-block", cls == "ok")
+		if cls != "ok" {
+			return
+		}
+		if st.fail {
+			sv.Assert("failure-reported-through-the-error-result", err != nil && r == nil)
+		} else {
+			sv.Assert("later-call-succeeds", err == nil && r != nil)
+		}
+	}
+	sv.Reach("sequence-done")
+}
